@@ -269,6 +269,36 @@ Fixpoint do_hist (st : state) (toks : list string) (acc : list string) (k : bool
     end
   end.
 
+(* ---------------- kind gate: the interleaving Lookup ; StopHunt|Close ; Send... replayed on the real code ----------------
+   k routers learned, StartHunt a, the pass of the new loop decides (Lookup) and is held inside its first
+   send, StopHunt a / Close returns, the held pass continues.  Model column: the model's trace of exactly this
+   interleaving.  Spec column: the property text ("after StopHunt or Close no further forged advertisement
+   reaches that host"): no frame after the call returned.  Key: only when every frame after the call was
+   decided before it, i.e. their number is within the bound of C14_stop / C14_close (what was on the loop's
+   list when the call returned); anything beyond that has no key and is a violation. *)
+Definition gate_srcs : list bytes :=
+  [[254;128;0;0;0;0;0;0;0;0;0;0;0;1;0;17]; [254;128;0;0;0;0;0;0;0;0;0;0;0;1;0;18]; [254;128;0;0;0;0;0;0;0;0;0;0;0;1;0;19]].
+Definition gate_ra : bytes := [134;0;0;0;64;0;7;8;0;0;0;0;0;0;0;0].
+Definition gate_addr : addr := mkAddr [2;0;0;0;0;9] [].
+
+Definition do_gate (what : string) (k : nat) : string :=
+  let st0 := fold_left (fun st src => fst (step std_cfg (set_repeat st 3) (RxRA src std_eth gate_ra true)))
+                       (firstn k gate_srcs) (init (-1)) in
+  let '(st1, o1) := step std_cfg st0 (StartHunt gate_addr) in
+  let '(st2, _) := step std_cfg st1 (Lookup 0 (seq 0 (List.length (routers st1)))) in
+  let decided := match nth_error (loops st2) 0 with Some l => List.length (l_pending l) | None => 0%nat end in
+  let '(st3, o3) := if String.eqb what "stop" then step std_cfg st2 (StopHunt gate_addr) else step std_cfg st2 Close in
+  (* the held pass goes on: as many Send steps as it takes (one more than decided: the extra one must emit nothing),
+     then its next Lookup, which must end the loop *)
+  let '(st4, nas) := sends std_cfg st3 0 (S decided) [] in
+  let '(st5, o5) := step std_cfg st4 (Lookup 0 (seq 0 (List.length (routers st4)))) in
+  let '(_, late) := sends std_cfg st5 0 (S decided) [] in
+  let all := (nas ++ late)%list in
+  let pre := show_out o1 ++ " | blocked | " ++ (if String.eqb what "stop" then show_out o3 else "closed") ++ " | after:" in
+  let key := if String.eqb what "stop" then "c14-na-in-flight-after-stophunt" else "c14-na-in-flight-after-close" in
+  out3 (pre ++ show_out (ONAs all)) (pre ++ show_out (ONAs []))
+       (if negb (List.length all =? 0)%nat && (List.length nas <=? decided)%nat && (List.length late =? 0)%nat then key else "-").
+
 (* ---------------- kinds opts / tab ---------------- *)
 Definition show_opts_all (o : new_options) : string :=
   "slla=" ++ hx (o_slla o) ++ " tlla=" ++ hx (o_tlla o) ++ " mtu=" ++ dec_of_N (o_mtu o)
@@ -364,6 +394,11 @@ Definition dispatch (kind : string) (args : list string) : string :=
                  if xn_area p then out3 "puny" "-" "-" else out3 m "-" "-"
              | None => BADARGS
              end
+    | _ => BADARGS
+    end
+  else if String.eqb kind "gate" then
+    match args with
+    | [w; ks] => match nat_of_dec ks with Some k => do_gate w k | None => BADARGS end
     | _ => BADARGS
     end
   else if String.eqb kind "tab" then
